@@ -273,3 +273,131 @@ Theorem readback p ops s : forallb op_ok ops = true -> build p ops = Val s -> in
 Proof. intros OK H. apply Built_instructions. eapply build_Built; eauto. Qed.
 Theorem readback_minimal p ops s : forallb op_ok ops = true -> build p ops = Val s -> instructions true s = cut_nonminimal (expected p ops).
 Proof. intros OK H. apply Built_instructions_minimal. eapply build_Built; eauto. Qed.
+
+(* ------------------------------------------------------------------ script numbers *)
+Lemma byte_cases (P : N -> Prop) : (forall b, P (b2n b)) -> forall n, n < 256 -> P n.
+Proof. intros H n L. rewrite <- (b2n_n2b_small n L). apply H. Qed.
+
+(* the tail of build_scriptint once abs <= 0xFF *)
+Definition si_tail (abs : N) (neg : bool) : bytes :=
+  if negb (N.land abs 0x80 =? 0) then [n2b abs; if neg then x80 else x00] else [n2b (N.lor abs (if neg then 0x80 else 0))].
+Lemma si_tail_spec abs neg : 0 < abs -> abs < 256 ->
+  sm_dec (si_tail abs neg) = (neg, abs) /\ length (si_tail abs neg) = (if (abs <? 128)%N then 1%nat else 2%nat).
+Proof. intros H L. revert H. pattern abs. apply byte_cases; [|exact L]. intros b. destruct b; destruct neg; vm_compute; intros H; try discriminate H; split; reflexivity. Qed.
+
+Lemma sm_dec_cons b e : e <> [] -> sm_dec (b :: e) = (fst (sm_dec e), b2n b + 256 * snd (sm_dec e)).
+Proof. destruct e as [|y r]; [congruence|]. intros _. cbn [sm_dec]. destruct r; [reflexivity|]. destruct (sm_dec (b0 :: r)). reflexivity. Qed.
+
+Lemma si_loop_spec : forall fuel abs neg, 0 < abs -> abs < 256 ^ N.of_nat fuel ->
+  exists e, si_loop fuel abs neg = Val e /\ sm_dec e = (neg, abs) /\ e <> [] /\
+            forall j, (length e <= S j)%nat <-> abs < 128 * 256 ^ N.of_nat j.
+Proof. induction fuel as [|f IH]; intros abs neg H0 HL.
+  - cbn in HL. lia.
+  - cbn [si_loop]. destruct (N.ltb_spec 255 abs) as [Big|Small].
+    + rewrite Nnat.Nat2N.inj_succ, N.pow_succ_r' in HL.
+      assert (S8 : N.shiftr abs 8 = abs / 256) by (rewrite N.shiftr_div_pow2; reflexivity).
+      assert (L8 : N.land abs 255 = abs mod 256) by (change 255 with (N.ones 8); rewrite N.land_ones; reflexivity).
+      rewrite S8, L8. destruct (IH (abs / 256) neg) as (e & E & D & NE & LEN); [lia|lia|].
+      rewrite E. cbn [obind]. eexists; split; [reflexivity|]. split; [|split; [discriminate|]].
+      * rewrite sm_dec_cons by exact NE. rewrite D. cbn [fst snd]. f_equal. rewrite b2n_n2b_small by lia. lia.
+      * intros j. cbn [length]. destruct j as [|j].
+        { split; intros X. - destruct e; [congruence|cbn in X; lia]. - cbn in X. lia. }
+        rewrite Nnat.Nat2N.inj_succ, N.pow_succ_r'. specialize (LEN j). remember (256 ^ N.of_nat j) as P. split; intros X.
+        -- assert (abs / 256 < 128 * P) by (apply LEN; lia). lia.
+        -- assert (length e <= S j)%nat by (apply LEN; lia). lia.
+    + destruct (si_tail_spec abs neg H0) as [D LEN]; [lia|].
+      exists (si_tail abs neg); split; [unfold si_tail; destruct (negb (N.land abs 128 =? 0)); reflexivity|]. split; [exact D|]. split. { intros X. rewrite X in LEN. destruct (abs <? 128); discriminate. }
+      intros j. rewrite LEN. assert (1 <= 256 ^ N.of_nat j) by (apply N.lt_pred_le; cbn; apply N.neq_0_lt_0, N.pow_nonzero; lia).
+      destruct (N.ltb_spec abs 128).
+      * split; intros; [nia|lia].
+      * destruct j as [|j]. { cbn. split; intros; lia. }
+        rewrite Nnat.Nat2N.inj_succ, N.pow_succ_r'. assert (1 <= 256 ^ N.of_nat j) by (apply N.lt_pred_le; cbn; apply N.neq_0_lt_0, N.pow_nonzero; lia).
+        split; intros; [nia|lia]. Qed.
+
+Ltac i64c := unfold in_i64, i64_min, i64_max, wrap_i64, as_usize in *;
+  change (2 ^ 63)%Z with 9223372036854775808%Z in *; change (2 ^ 64)%Z with 18446744073709551616%Z in *.
+
+Lemma build_scriptint_spec p n : in_i64 n = true -> n <> 0%Z -> (p = Release \/ n <> i64_min) ->
+  exists e, build_scriptint p n = Val e /\ sm_dec e = ((n <? 0)%Z, Z.to_N (Z.abs n)) /\ e <> [] /\
+            forall j, (length e <= S j)%nat <-> Z.to_N (Z.abs n) < 128 * 256 ^ N.of_nat j.
+Proof. intros R NZ PM. unfold build_scriptint. destruct (Z.eqb_spec n 0); [contradiction|].
+  assert (A : exists a, (if (n <? 0)%Z then neg_i64 p n else Val n) = Val a /\ as_usize a = Z.to_N (Z.abs n)).
+  { destruct (Z.ltb_spec n 0).
+    - unfold neg_i64. destruct (in_i64 (- n)) eqn:I.
+      + eexists; split; [reflexivity|]. i64c. rewrite Z.mod_small by lia. f_equal. lia.
+      + assert (n = i64_min) by (i64c; lia). destruct PM as [-> | PM]; [|contradiction]. subst n. eexists; split; [reflexivity|]. reflexivity.
+    - eexists; split; [reflexivity|]. i64c. rewrite Z.mod_small by lia. f_equal. lia. }
+  destruct A as (a & -> & AU). cbn [obind]. rewrite AU.
+  apply si_loop_spec; [lia|]. i64c. change (256 ^ N.of_nat 9) with 4722366482869645213696. lia. Qed.
+
+Lemma build_scriptint_zero p : build_scriptint p 0 = Val [].
+Proof. reflexivity. Qed.
+Lemma build_scriptint_min_debug : build_scriptint Debug i64_min = Panic PNegOverflow.
+Proof. reflexivity. Qed.
+Lemma build_scriptint_panic_iff p n : in_i64 n = true -> ((exists w, build_scriptint p n = Panic w) <-> (p = Debug /\ n = i64_min)).
+Proof. intros R. split.
+  - intros [w H]. destruct (Z.eq_dec n 0) as [->|NZ]; [discriminate|]. destruct p.
+    + split; [reflexivity|]. destruct (Z.eq_dec n i64_min) as [->|NM]; [reflexivity|].
+      destruct (build_scriptint_spec Debug n R NZ (or_intror NM)) as (e & E & _). congruence.
+    + destruct (build_scriptint_spec Release n R NZ (or_introl eq_refl)) as (e & E & _). congruence.
+  - intros [-> ->]. eexists. reflexivity. Qed.
+
+(* read_scriptint *)
+Lemma read_fold v : forall acc sh, (0 <= sh)%Z ->
+  fold_left (fun (st : Z * Z) (n : byte) => let '(acc, sh) := st in ((acc + Z.shiftl (Z.of_N (b2n n)) sh)%Z, (sh + 8)%Z)) v (acc, sh)
+  = ((acc + 2 ^ sh * Z.of_N (le_val v))%Z, (sh + 8 * Z.of_nat (length v))%Z).
+Proof. induction v as [|b r IH]; intros acc sh H; cbn [fold_left le_val length].
+  - f_equal; lia.
+  - rewrite IH by lia. rewrite Z.shiftl_mul_pow2 by lia. rewrite Z.pow_add_r by lia. change (2 ^ 8)%Z with 256%Z. f_equal; lia. Qed.
+
+Lemma sign_bit b : negb (N.land (b2n b) 128 =? 0) = (128 <=? b2n b).
+Proof. destruct b; reflexivity. Qed.
+
+Definition topw (v : bytes) : N := 128 * 256 ^ N.of_nat (length v - 1).
+Lemma sm_dec_le v : v <> [] ->
+  fst (sm_dec v) = (128 <=? b2n (last v x00)) /\ le_val v = snd (sm_dec v) + (if fst (sm_dec v) then topw v else 0) /\ snd (sm_dec v) < topw v.
+Proof. induction v as [|b r IH]; [congruence|]. intros _. destruct r as [|y r].
+  - unfold topw. cbn [sm_dec fst snd last le_val length Nat.sub]. change (128 * 256 ^ N.of_nat 0) with 128. pose proof (b2n_lt b).
+    split; [reflexivity|]. destruct (N.leb_spec 128 (b2n b)); lia.
+  - destruct IH as (I1 & I2 & I3); [discriminate|]. rewrite sm_dec_cons by discriminate. cbn [fst snd].
+    assert (T : topw (b :: y :: r) = 256 * topw (y :: r)).
+    { unfold topw. cbn [length Nat.sub]. rewrite Nat.sub_0_r. rewrite Nnat.Nat2N.inj_succ, N.pow_succ_r'. lia. }
+    rewrite T. split; [exact I1|]. pose proof (b2n_lt b). split.
+    + change (le_val (b :: y :: r)) with (b2n b + 256 * le_val (y :: r)). rewrite I2. destruct (fst (sm_dec (y :: r))); lia.
+    + lia. Qed.
+
+Lemma topw_Z v : v <> [] -> (2 ^ (8 * Z.of_nat (length v) - 1))%Z = Z.of_N (topw v).
+Proof. destruct v as [|b r]; [congruence|]. intros _. unfold topw. cbn [length Nat.sub]. rewrite Nat.sub_0_r.
+  induction (length r) as [|k IH].
+  - reflexivity.
+  - replace (8 * Z.of_nat (S (S k)) - 1)%Z with ((8 * Z.of_nat (S k) - 1) + 8)%Z by lia. rewrite Z.pow_add_r by lia. rewrite IH.
+    rewrite Nnat.Nat2N.inj_succ, N.pow_succ_r'. change (2 ^ 8)%Z with 256%Z. lia. Qed.
+
+Lemma read_scriptint_spec v :
+  read_scriptint v = if Nat.ltb 4 (length v) then SErr NumericOverflow else SOk (sm_val v).
+Proof. destruct v as [|b r]; [reflexivity|]. unfold read_scriptint. cbn [length]. change (S (length r)) with (length (b :: r)).
+  assert (NE : b :: r <> []) by discriminate. remember (b :: r) as v eqn:V. clear V b r.
+  destruct (Nat.ltb 4 (length v)); [reflexivity|].
+  rewrite read_fold by lia. rewrite Z.pow_0_r, Z.mul_1_l, !Z.add_0_l.
+  destruct (sm_dec_le v NE) as (S1 & S2 & S3). rewrite sign_bit, <- S1. unfold sm_val. destruct (sm_dec v) as [s m]. cbn [fst snd] in *.
+  destruct s; [|f_equal; lia].
+  change (Z.shiftl 1 (8 * Z.of_nat (length v) - 1) - 1)%Z with (Z.ones (8 * Z.of_nat (length v) - 1)).
+  assert (0 < length v)%nat by (destruct v; [congruence|cbn; lia]).
+  rewrite Z.land_ones by lia. rewrite topw_Z by exact NE. rewrite S2, N2Z.inj_add.
+  rewrite <- (Z.mul_1_l (Z.of_N (topw v))) at 1. rewrite Z_mod_plus_full. rewrite Z.mod_small by lia. reflexivity. Qed.
+
+Theorem scriptint_roundtrip p n : (- 2 ^ 31 < n < 2 ^ 31)%Z -> exists e, build_scriptint p n = Val e /\ read_scriptint e = SOk n.
+Proof. intros R. destruct (Z.eq_dec n 0) as [->|NZ]. { exists []. split; reflexivity. }
+  change (2 ^ 31)%Z with 2147483648%Z in R.
+  destruct (build_scriptint_spec p n) as (e & E & D & NE & LEN); [i64c; lia|exact NZ|right; i64c; lia|].
+  exists e. split; [exact E|]. rewrite read_scriptint_spec.
+  assert (length e <= 4)%nat by (apply (LEN 3%nat); change (128 * 256 ^ N.of_nat 3) with 2147483648; lia).
+  destruct (Nat.ltb_spec 4 (length e)); [lia|]. f_equal. unfold sm_val. rewrite D. destruct (Z.ltb_spec n 0); lia. Qed.
+
+Theorem scriptint_overflow p n : in_i64 n = true -> (2 ^ 31 <= Z.abs n)%Z -> (p = Release \/ n <> i64_min) ->
+  exists e, build_scriptint p n = Val e /\ read_scriptint e = SErr NumericOverflow.
+Proof. intros R B PM. change (2 ^ 31)%Z with 2147483648%Z in B.
+  destruct (build_scriptint_spec p n R) as (e & E & D & NE & LEN); [lia|exact PM|].
+  exists e. split; [exact E|]. rewrite read_scriptint_spec.
+  destruct (Nat.ltb_spec 4 (length e)); [reflexivity|]. exfalso.
+  assert (Z.to_N (Z.abs n) < 128 * 256 ^ N.of_nat 3) by (apply LEN; lia). change (128 * 256 ^ N.of_nat 3) with 2147483648 in *. lia. Qed.
